@@ -169,9 +169,67 @@ def gen_prom(seed, tier):
     return cases
 
 
+AW_ENGINES = ["aw_int", "aw_void", "aw_uptr", "aw_ref", "aw_cnt"]
+
+
+def gen_aw(seed, tier):
+    """re-used awaiter objects (harness/seq_aw.cpp): 2 hand-written awaiters and 2 call_fn_future_awaiters wait repeatedly on
+    3 external futures / their internal futures; aimed at: wait on an already resolved future (refused) followed by another
+    wait of the same object on a resolved future, on a pending one that is resolved later, several awaiters chained on one
+    future, futures re-created in between, promise called twice."""
+    rng = random.Random(seed * 15485863 + 505)
+    n = 500 if tier == "quick" else 8000
+    cases = []
+    for i in range(n):
+        eng = AW_ENGINES[i % 5]
+        ops = []
+        L = rng.choice([3, 5, 8, 12, 18, 25])
+        for _ in range(L):
+            r = rng.random()
+            if r < 0.06:
+                ops.append(rng.choice([[20, rng.randint(0, 4), rng.randint(0, 5)], [21, rng.randint(0, 3), rng.randint(0, 2), 1],
+                                       [22, rng.randint(0, 6), rng.randint(0, 3), 1], [23, rng.randint(0, 5), 1, 1], [99], [24, 7], [20, -1, 0]]))
+            elif r < 0.30:
+                ops.append([20, rng.randint(0, 1), rng.randint(0, 2)])
+            elif r < 0.52:
+                ops.append([21, rng.randint(0, 1), rng.choice([0, 1, 1]), rng.randint(1, 99)])
+            elif r < 0.78:
+                ops.append([22, rng.randint(0, 4), rng.choice([0, 0, 0, 1, 2]), rng.randint(1, 99)])
+            elif r < 0.92:
+                ops.append([23, rng.randint(0, 2), rng.choice([0, 1, 1]), rng.randint(1, 99)])
+            else:
+                ops.append([24, rng.randint(0, 4)])
+        cases.append(Case(eng, "w%d" % i, ops))
+    # systematic: first wait (resolved | pending then resolved | pending, still parked is impossible for reuse), second wait x same
+    j = 0
+    for style in (0, 1):
+        for first in (0, 1):
+            for second in (0, 1):
+                for third in (0, 1):
+                    ops = []
+                    for k, mode in enumerate((first, second, third)):
+                        if style == 0:
+                            c = k % 3
+                            if mode: ops += [[22, c, 0, 10 + k], [20, 0, c]]
+                            else: ops += [[20, 0, c], [20, 1, c], [22, c, 0, 10 + k]]
+                        else:
+                            if mode: ops += [[21, 0, 1, 10 + k]]
+                            else: ops += [[21, 0, 0, 0], [22, 3, 0, 10 + k]]
+                    cases.append(Case(AW_ENGINES[j % 5], "ws%d" % j, ops)); j += 1
+    return cases
+
+
 def nontrivial(case, model_obs):
     if case.engine == "cell_stress":
         return True
+    if case.engine.startswith("aw_"):
+        # some awaiter object answered at least two waits
+        ids = [l.split()[1] for l in model_obs if l.startswith("0 ") and len(l.split()) == 4]
+        for l in model_obs:
+            t = l.split()
+            if t and t[0] == "1" and len(t) > 1 and (len(t) - 1) % 3 == 0 and len(t) > 3:
+                ids += t[1::3]
+        return any(ids.count(x) >= 2 for x in ids)
     if case.engine.startswith("prom_"):
         # at least one move operation accepted and at least one future resolved
         kinds = [o[0] for o in case.ops if o]
@@ -186,6 +244,9 @@ def nontrivial(case, model_obs):
 def signature(case, impl_obs, model_obs):
     if case.engine == "cell_stress":
         return "cell:stress"
+    if case.engine.startswith("aw_"):
+        last = impl_obs[-1] if impl_obs else ""
+        return "aw:" + (last.split()[1] if last.startswith("CRASH") else "HANG" if last == "HANG" else "oracle")
     if case.engine.startswith("prom_"):
         last = impl_obs[-1] if impl_obs else ""
         return "prom:" + (last.split()[1] if last.startswith("CRASH") else "HANG" if last == "HANG" else "oracle")
